@@ -106,6 +106,11 @@ func (pkg *Package) buildRoot(schema *schema_j5pb.RootSchema) (RootSchema, error
 }
 
 func (pkg *Package) schemaFromDesc(context fieldContext, schema *schema_j5pb.Field) (FieldSchema, error) {
+	if schema == nil {
+		// an ObjectProperty without schema, an ArrayField without items or a
+		// MapField without item_schema
+		return nil, fmt.Errorf("missing field schema")
+	}
 
 	switch st := schema.Type.(type) {
 
